@@ -401,3 +401,195 @@ func (c *Ctx) idHeaderNamesValidated() {
 	}
 	c.Floor(rule, n, 2, "ID header names")
 }
+
+// noBufferingHandler: http.TimeoutHandler serves its handler into a buffer of its own: its
+// ResponseWriter has neither Flush nor Hijack, so nothing the backend flushes reaches the client before
+// the response ends and an Upgrade cannot be tunnelled.  Nothing on the serving path is wrapped in it.
+func (c *Ctx) noBufferingHandler() {
+	p := c.P
+	var bad []string
+	handlers := 0
+	for _, fn := range p.Funcs {
+		if !p.InScope(fn) {
+			continue
+		}
+		for _, ci := range callsIn(fn) {
+			switch n := CalleeName(ci); n {
+			case "net/http.TimeoutHandler":
+				bad = append(bad, fmt.Sprintf("%s: %s wraps a handler in http.TimeoutHandler: its response writer buffers the whole response and offers neither Flush nor Hijack — streamed bytes wait for the end of the response (or become a 503), upgrades fail", p.InstrPos(ci), p.FuncKey(fn)))
+			case "(net/http.Handler).ServeHTTP", "(net/http.HandlerFunc).ServeHTTP":
+				handlers++
+			}
+		}
+	}
+	if len(bad) == 0 {
+		c.Pass("no-buffering-handler", "net/http.TimeoutHandler", "-", fmt.Sprintf("no handler is wrapped in http.TimeoutHandler (%d handler invocations looked at)", handlers))
+	} else {
+		c.Fail("no-buffering-handler", "net/http.TimeoutHandler", "-", bad[0], bad...)
+	}
+	c.Floor("no-buffering-handler", handlers, 5, "handler invocations in Helios")
+}
+
+// strategyAddAppends (C11): "once add returns the backend is listed … every other backend stays as it
+// is".  Each strategy's AddBackend extends its pool by append(pool, b) and does nothing else to it: no
+// element is stored, the pool is not handed to anything, and no second slice built from a part of it
+// is appended back (an in-place sorted insert — tail := pool[i:]; pool = append(pool[:i], b);
+// pool = append(pool, tail...) — overwrites the element at i with the new backend).
+func (c *Ctx) strategyAddAppends() {
+	p := c.P
+	n := 0
+	for _, nt := range c.strategyImpls() {
+		name := nt.Obj().Name()
+		fn := p.Fn("internal/loadbalancer", name, "AddBackend")
+		construct := "loadbalancer.(*" + name + ").AddBackend"
+		if fn == nil {
+			c.Missing("strategy-add-appends", construct)
+			continue
+		}
+		n++
+		var bad []string
+		appends := 0
+		instrsOf(fn, func(in ssa.Instruction) {
+			switch x := in.(type) {
+			case *ssa.Slice:
+				// a re-slicing of the pool that leaves out a prefix or a suffix: material for an
+				// in-place insertion
+				if strings.Contains(p.Desc(x.X, nil), "Strategy.backends") && (x.Low != nil || x.High != nil) {
+					bad = append(bad, p.InstrPos(x)+": a part of the pool is sliced off while a backend is added (an in-place insertion shifts or overwrites the backends behind it)")
+				}
+			case ssa.CallInstruction:
+				cn := CalleeName(x)
+				for i, a := range x.Common().Args {
+					d := p.Desc(a, nil)
+					if !strings.Contains(d, "Strategy.backends") {
+						continue
+					}
+					switch {
+					case cn == "builtin:append" && i == 0:
+						appends++
+					case cn == "builtin:len" || cn == "builtin:cap" || cn == "builtin:append":
+					default:
+						bad = append(bad, fmt.Sprintf("%s: the pool is handed to %s while a backend is added", p.InstrPos(x), cn))
+					}
+				}
+			}
+		})
+		for _, a := range Accesses(fn) {
+			if strings.HasSuffix(a.Key, "Strategy.backends") && a.Kind == "elem-write" {
+				if ci, isCall := a.Instr.(ssa.CallInstruction); isCall && CalleeName(ci) == "builtin:append" {
+					continue
+				}
+				bad = append(bad, p.InstrPos(a.Instr)+": an element of the pool is overwritten while a backend is added")
+			}
+		}
+		if appends == 0 {
+			bad = append(bad, p.Pos(fn.Pos())+": the backend is not added by append(pool, backend)")
+		}
+		if appends > 1 {
+			bad = append(bad, p.Pos(fn.Pos())+fmt.Sprintf(": the pool is appended to %d times for one backend", appends))
+		}
+		if len(bad) == 0 {
+			c.Pass("strategy-add-appends", construct, p.Pos(fn.Pos()), "one append(pool, backend); no element store, no re-slicing, no call receives the pool")
+		} else {
+			c.Fail("strategy-add-appends", construct, p.Pos(fn.Pos()), bad[0], bad...)
+		}
+	}
+	c.Floor("strategy-add-appends", n, 5, "strategy AddBackend methods")
+}
+
+// claimedFlagReleased (C04, C12): a flag that is claimed with an atomic compare-and-swap ("one probe per
+// backend at a time") is a resource.  Where its release is deferred, the defer has to be registered
+// before any return of that function — a release that sits after the early returns ("skip ejected
+// backend", "shutting down") leaves the flag claimed for ever on those paths, and whatever the flag
+// guards (probing a backend) never happens again.
+func (c *Ctx) claimedFlagReleased() {
+	p := c.P
+	// fields claimed by CompareAndSwap(addr, 0|false, non-zero)
+	claimed := map[string]string{}
+	fieldOfAddr := func(v ssa.Value) string {
+		if fa, ok := v.(*ssa.FieldAddr); ok {
+			if fr, ok := fieldRefOf(fa); ok {
+				return fr.Key()
+			}
+		}
+		return ""
+	}
+	for _, fn := range p.Funcs {
+		if !p.InScope(fn) {
+			continue
+		}
+		for _, ci := range callsIn(fn) {
+			n := CalleeName(ci)
+			args := ci.Common().Args
+			switch {
+			case strings.HasPrefix(n, "sync/atomic.CompareAndSwap") && len(args) == 3:
+				if k, ok := constInt(args[1]); ok && k == 0 {
+					if f := fieldOfAddr(args[0]); f != "" {
+						claimed[f] = p.InstrPos(ci)
+					}
+				}
+			case strings.HasSuffix(n, ").CompareAndSwap") && strings.Contains(n, "sync/atomic.") && len(args) == 3:
+				if f := fieldOfAddr(args[0]); f != "" {
+					claimed[f] = p.InstrPos(ci)
+				}
+			}
+		}
+	}
+	n := 0
+	var bad []string
+	for _, fn := range p.Funcs {
+		if !p.InScope(fn) {
+			continue
+		}
+		instrsOf(fn, func(in ssa.Instruction) {
+			d, ok := in.(*ssa.Defer)
+			if !ok {
+				return
+			}
+			// the deferred call, or the closure it runs, stores the released value into a claimed flag
+			var body []*ssa.Function
+			var direct ssa.CallInstruction = d
+			if mc, ok := d.Call.Value.(*ssa.MakeClosure); ok {
+				body = append(body, mc.Fn.(*ssa.Function))
+				direct = nil
+			}
+			releases := ""
+			check := func(ci ssa.CallInstruction) {
+				nm := CalleeName(ci)
+				if !(strings.HasPrefix(nm, "sync/atomic.Store") || strings.HasPrefix(nm, "sync/atomic.Swap") || (strings.Contains(nm, "sync/atomic.") && (strings.HasSuffix(nm, ").Store") || strings.HasSuffix(nm, ").Swap")))) {
+					return
+				}
+				if len(ci.Common().Args) == 0 {
+					return
+				}
+				if f := fieldOfAddr(ci.Common().Args[0]); f != "" && claimed[f] != "" {
+					releases = f
+				}
+			}
+			if direct != nil {
+				check(direct)
+			}
+			for _, b := range body {
+				for _, ci := range callsIn(b) {
+					check(ci)
+				}
+			}
+			if releases == "" {
+				return
+			}
+			n++
+			for _, b := range fn.Blocks {
+				for _, in2 := range b.Instrs {
+					if _, isRet := in2.(*ssa.Return); isRet && !(d.Block() == b || d.Block().Dominates(b)) {
+						bad = append(bad, fmt.Sprintf("%s: %s registers the release of %s (claimed by compare-and-swap at %s) only after the return at %s: on that path the flag stays claimed for ever and what it guards never runs again", p.InstrPos(d), p.FuncKey(fn), releases, claimed[releases], p.InstrPos(in2)))
+					}
+				}
+			}
+		})
+	}
+	if len(bad) == 0 {
+		c.Pass("claimed-flag-released", "atomic flags", "-", fmt.Sprintf("%d flags claimed by compare-and-swap, %d deferred releases, each registered before every return", len(claimed), n))
+	} else {
+		c.Fail("claimed-flag-released", "atomic flags", "-", bad[0], bad...)
+	}
+}
